@@ -94,6 +94,11 @@ class OpsMixin:
                 if isinstance(a, tuple):
                     return [(st, tuple(la + lb))]
                 return [(st, st.alloc(HList(items=la + lb)))]
+        h = self.specs.get(("binop", op))  # contract-supplied spec (e.g. `fmt % (a, b)` with an opaque fmt)
+        if h is not None and (kind_of(a) == "obj" or kind_of(b) == "obj"):
+            r = h(self, st, [a, b], {}, node)
+            if r is not None:
+                return r
         raise Unsupported(f"sequence operator {op.__name__}", node)
 
     def as_list_items(self, st, v):
@@ -191,6 +196,9 @@ class OpsMixin:
             return True if not conj else Sym(z3.And(*conj), "bool")
         if isinstance(a, Ref) and isinstance(b, Ref) and a.id == b.id:
             return True
+        if (isinstance(a, Ref) and isinstance(b, Sym) and b.k == "obj") or (isinstance(b, Ref) and isinstance(a, Sym) and a.k == "obj"):
+            # heap object vs opaque value: equality taken as identity (assumption A-EQ)
+            return Sym(to_term(a, "obj") == to_term(b, "obj"), "bool")
         if (a is None) != (b is None) and (a is None or b is None):
             other = b if a is None else a
             if isinstance(other, (Ref, tuple)):
